@@ -25,7 +25,7 @@ PROPS["C20"] = dict(
     technique="model-based stateful property testing (rapidcheck-generated op histories vs std::map reference model)",
     level_text="Generated operation histories over collision-rich key pools are compared step by step with a std::map reference; exploration only - absence of violations on the explored histories, not a proof.",
     level_note="Trusted: std::map, the harness' read-only chain inspection, ASan/UBSan runtimes. Assumes keys stay alive (the table does not copy keys) and binary keys only on case-sensitive tables.",
-    quick=dict(cases=2500, maxlen=1300, budget=60),
+    quick=dict(cases=7000, maxlen=1300, budget=60),
     thorough=dict(cases=60000, maxlen=1300, budget=600),
     rule=("rapidcheck generates a choice sequence decoded into (case mode, string|binary keys, size request, "
           "key pool of 2-400 keys drawn from a collision-rich shortlex space over {a,A,b,B,z,0,_,0x80,0xff} or "
@@ -43,7 +43,7 @@ PROPS["C19"] = dict(
     technique="property-based testing with a long-double reference model; exhaustive sweep of the table index per generated (base, shift) configuration",
     level_text="Each generated case fixes one (base, shift) configuration (the three the library uses plus generated bases in (1.00005,2] and shifts 0-12) and sweeps EVERY difference d from 0 to table_size+64 for five anchors against a long-double reference of log_b(b^x+b^y); symmetry, bounds, monotonicity, identity, add_exact and the log/exp round trip are asserted. Exhaustive in d per configuration, sampled over configurations.",
     level_note="Trusted: libm long double log1pl/expl/logl as reference (error << 1e-6 unit), ASan/UBSan. Arguments stay within (log-zero, 2^27] so that x-y cannot overflow int, which is what callers pass.",
-    quick=dict(cases=600, maxlen=1400, budget=90),
+    quick=dict(cases=3000, maxlen=1400, budget=90),
     thorough=dict(cases=20000, maxlen=1400, budget=900),
     rule=("one case = one (base, shift) configuration [library: (1.0001,0), (1.0001,10), (1.0003,0); generated: base-1 log-uniform in [5e-5,1], "
           "shift 0-12] swept over every table index d in [0, table_size+64] x 5 anchors, plus 40 far/identity pairs, 60 add_exact pairs and 400 "
@@ -58,7 +58,7 @@ PROPS["C06"] = dict(
     technique="differential + metamorphic property-based testing (chunked/limited runs vs single-call run, int16 vs float32, per-frame locality, closed-form frame count)",
     level_text="Generated front-end configurations, signals, chunk plans and per-call output limits; every frame of the chunked run must be bit-identical to the single-call run, to the other encoding, and to a fresh run over the frame's own samples; frame count must match a closed form; sample accounting is exact. Exploration: no failure on the explored cases.",
     level_note="Trusted: memcmp on float frames, the harness' closed-form frame count (itself compared with the library on every case), ASan/UBSan with each chunk in an exact-size heap block. dither is never enabled (documented random).",
-    quick=dict(cases=700, maxlen=160, budget=90),
+    quick=dict(cases=4000, maxlen=160, budget=90),
     thorough=dict(cases=12000, maxlen=160, budget=900),
     rule=("choices decode to (FE configuration: sample rate, frame rate, window, nfft, transform, lifter, remove_noise, remove_dc, logspec/smoothspec, "
           "filterbank, alpha, endian; signal length from a boundary-biased mixture incl. >128 frames and >32767+window samples; signal family; "
@@ -73,7 +73,7 @@ PROPS["C05"] = dict(
     technique="property-based testing against a reference model: bounded language of the JSGF seen as a CFG (least fixpoint) vs bounded language of the compiled FSG; must-refuse classifier; weight normalisation and proportionality",
     level_text="Generated JSGF ASTs (sequences, weighted alternatives, groups, optionals, star/plus, rule references, <NULL>, <VOID>, tags, comments, quoting, header variants; one injected recursion/refusal class) are printed with random layout and compiled; the language of the FSG up to k words must equal the CFG language in both directions; unrepresentable classes must be refused through the return value, representable ones must not; outgoing probabilities sum to one per state of the raw automaton and best-path probabilities are proportional to the written weights.",
     level_note="Trusted: the harness' CFG least-fixpoint enumerator and epsilon-NFA enumerator (fsa.h), logmath_exp/log (judged by C19). Bounded to k words (k chosen so that the full sentence space has <= 2500 strings); weights are only generated on alternatives (the only place JSGF defines them).",
-    quick=dict(cases=450, maxlen=400, budget=90),
+    quick=dict(cases=900, maxlen=400, budget=90),
     thorough=dict(cases=20000, maxlen=400, budget=900),
     rule=("choices decode to a JSGF AST: 1-4 rules over 2-4 words, depth 1-3, operators sequence/alternatives(+weights)/group/optional/star/plus/"
           "rule reference/<NULL>, tags and quoting, plus one class from {plain, tail recursion direct/nested/mutual, left recursion, embedded "
@@ -88,7 +88,7 @@ PROPS["C13"] = dict(
     technique="property-based testing with a harness automaton library: best-weight bounded language before/after each transformation (metamorphic), idempotence, write/read round trip with a derived tolerance",
     level_text="Random FSGs built through the fsg_model API (duplicates, self-loops, null chains and cycles, unreachable states, start==final, probabilities log-uniform down to 1e-6, lw in {0.5,1,6.5,9.5}) are copied out through the public arc iterator; duplicate merging, closure (language, completeness for one null step, idempotence), silence/filler loops (language modulo fillers, presence, idempotence), alternates (language modulo alternate projection, parallel arcs) and write->read are compared with the harness' own epsilon-NFA computations.",
     level_note="Trusted: fsa.h enumerator (bounded to k words, k chosen per case), logmath_log/exp (C19). The alternate lists emulate the dictionary; the dictionary-driven path through fsg_search is exercised by the decode harness.",
-    quick=dict(cases=1500, maxlen=200, budget=90),
+    quick=dict(cases=5000, maxlen=200, budget=90),
     thorough=dict(cases=30000, maxlen=200, budget=900),
     rule=("choices decode to an FSG: 1-8 states, start/final, lw, 0-14 word arcs over 1-5 words (20% duplicates of earlier arcs with another "
           "probability, 15% self-loops), 0-8 null arcs (40% as a chain/cycle over consecutive states), probabilities from {1, k/1000, log-uniform "
@@ -104,7 +104,7 @@ PROPS["C15"] = dict(
     technique="model-based stateful property testing: generated speech/non-speech decision histories (vad_classify interposed with --wrap) vs a queue/state-machine reference model",
     level_text="The voice-activity classifier is replaced at link time by generated decision sequences (runs biased around the window length); every endpointer_process call, the in-speech flag, start/end times and endpointer_end_stream are compared with a reference deque model; frames carry serial numbers so identity, order, gaps, repeats and byte-exactness are decided. Exploration over histories and configurations.",
     level_note="Trusted: the 60-line reference model (thresholds recomputed from window/ratio with the documented formulas), ASan on exact-size input frames. The real WebRTC classifier is bypassed by design: the property quantifies over decision sequences.",
-    quick=dict(cases=20000, maxlen=700, budget=90),
+    quick=dict(cases=80000, maxlen=700, budget=90),
     thorough=dict(cases=300000, maxlen=700, budget=900),
     rule=("choices decode to (sample rate, frame length, window 2-40 frames, ratio incl. values that let speech start before the window fills, "
           "0-400 decisions generated as runs, end-of-stream point and trailing partial frame length). Non-trivial = at least one segment and the "
@@ -147,7 +147,7 @@ PROPS["C11"] = dict(
     technique="property-based testing of graph invariants on generated decodes: acyclicity, start/end reachability, link time adjacency, every lattice path simulated on the grammar the search holds, first-best segmentation found as a chain of linked nodes, cache identity",
     level_text="The lattice is requested after chunks and at the end of generated decodes and copied out through the public node/link iterators; DFS/topological checks decide acyclicity and that every node lies on a start-end path; every link joins frame t to t+1 inside the utterance; (node, grammar-state-set) pairs are propagated along all paths of the DAG so that every path is simulated on the augmented grammar; the 1-best segmentation must be a chain of linked nodes; asking twice returns the same object.",
     level_note="Trusted: latalg.h / fsa.h. Synthetic <s>/</s> nodes are recognised by spelling at the start/end position and treated as zero-length. NULL lattices are allowed by the documentation and counted, not judged. Pair propagation is capped at 50,000 pairs (labelled).",
-    quick=dict(cases=110, maxlen=600, budget=100),
+    quick=dict(cases=200, maxlen=600, budget=100),
     thorough=dict(cases=6000, maxlen=600, budget=1200),
     rule=_DECODE_RULE + "Non-trivial = a lattice with >= 4 nodes and >= 2 distinct start-to-end paths; distinct = distinct case text.",
     assumptions=["grammar words are dictionary words"],
@@ -159,7 +159,7 @@ PROPS["C12"] = dict(
     technique="property-based testing with independent recomputation over the lattice: longest-path DP, exhaustive path enumeration (<= 20000 paths), long-double forward/backward with a per-link rounding bound derived from the log-add error",
     level_text="On the lattices of generated decodes: lattice_bestpath must return a link into the end node whose score equals an independent longest-path DP and whose best_prev chain is a connected start-end path summing to that score; alpha/beta/normaliser are compared with a long-double forward-backward within a bound accumulated from 0.5 unit per log-add; posteriors <= 0 within that bound; forward and backward totals agree; N-best scores are non-increasing, the first equals the best path, each hypothesis is the word sequence and score of an enumerated start-end path and its segmentation is a chain of linked nodes.",
     level_note="Trusted: latalg.h, libm long double. N-best is read after best-path/posterior (not interleaved: both reuse one per-node scratch field). Lattices that already violate C11's reachability invariants are skipped (labelled) and left to C11.",
-    quick=dict(cases=110, maxlen=600, budget=100),
+    quick=dict(cases=200, maxlen=600, budget=100),
     thorough=dict(cases=6000, maxlen=600, budget=1200),
     rule=_DECODE_RULE + "Non-trivial = the N-best list holds >= 2 distinct word sequences; distinct = distinct case text.",
     assumptions=["the per-link term (ascr<<10)*ascale is computed with the same float expression as the library; only log-add rounding is bounded"],
@@ -171,7 +171,7 @@ PROPS["C14"] = dict(
     technique="property-based testing with a strict RFC 8259 parser as validity oracle, allocator-size equality for the buffer clause, and field-by-field differential against the hypothesis / segmentation / alignment iterators formatted with the same %.3f",
     level_text="decoder_result_json is requested at partial points and at the end of generated decodes, for levels 0/1/2, start offsets {0, large fractional, tiny, negative}, frame rates {100, 50, 125} and a dictionary extended with spellings containing quotes, backslashes, control characters, multi-byte UTF-8 and a 200-byte word; the text must parse as exactly one JSON object plus one newline, be exactly as long as its allocation (sanitizer allocator query), and every b/d/p/t field and nested list must equal what the iterators report.",
     level_note="Trusted: json.h parser, __sanitizer_get_allocated_size, snprintf %.3f. Bytes that are not valid UTF-8 are not generated (no JSON text can carry them).",
-    quick=dict(cases=200, maxlen=600, budget=100),
+    quick=dict(cases=400, maxlen=600, budget=100),
     thorough=dict(cases=5000, maxlen=600, budget=1200),
     rule=_DECODE_RULE + "Decoders additionally: hostile-spelling dictionary at frame rates 100/50/125 with FSG or alignment-text grammars over those spellings; JSON level 0/1/2 and start offset per case. Non-trivial = a JSON result with >= 2 word entries; distinct = distinct case text.",
     assumptions=["word spellings are valid UTF-8 without whitespace (the dictionary format cannot carry whitespace)"],
@@ -183,7 +183,7 @@ PROPS["C07"] = dict(
     technique="differential property-based testing: the same audio, grammar and channel-normalisation state decoded in one call (in an isolated copy of the pristine process) vs in generated chunkings / buffering modes / entry points / partial-query schedules; exact equality of the canonical result record",
     level_text="For generated audio shorter than the live-CMN update window, the record (hypothesis, path score, every segment with frames and scores, decoder_n_frames, frames searched, full word/phone/state alignment) of a run with arbitrary chunking (down to single samples, first chunk shorter than a window, no_search chunks, float32 entry, partial hyp/seg/lattice/N-best/JSON/alignment queries in between) must be string-equal to the record of the one-call run after the same decoder_set_cmn.",
     level_note="Trusted: fork isolation (both runs start from the same pristine decoder image), the canonical record. full_utt is not part of the equality (its documentation promises potentially different results).",
-    quick=dict(cases=90, maxlen=600, budget=100),
+    quick=dict(cases=200, maxlen=600, budget=100),
     thorough=dict(cases=3000, maxlen=600, budget=1200),
     rule=_DECODE_RULE + "Variant run: chunk plan, per-chunk no_search, int16|float32, partial-query mask; cmn state from {default, generated, zero}. Non-trivial = >= 3 chunks and the one-call run has a hypothesis; distinct = distinct case text.",
     assumptions=["audio shorter than 300 frames so that live CMN cannot shift inside the utterance (the property's own restriction)"],
@@ -195,7 +195,7 @@ PROPS["C08"] = dict(
     technique="differential property-based testing over generated histories: the target utterance after a history of utterances / grammar switches / failed utterances / result queries vs the same utterance on a fresh decoder (isolated copy of the pristine process); repetition determinism; two-decoder interleavings vs solo runs",
     level_text="Generated histories of 1-4 utterances (streaming, buffered, full_utt; zero audio; no hypothesis; grammar switched and switched back; partial and final lattice/N-best/JSON/alignment queries; set_cmn) followed by a target utterance whose channel-normalisation state is reset with decoder_set_cmn (no reset for full_utt with cmn=batch): the canonical record must equal the one of a fresh decoder, and running it twice gives the same record; chunk-level interleavings of two live decoders must give each decoder its solo record; get_cmn/set_cmn text is a fixpoint.",
     level_note="Trusted: fork isolation as the definition of 'fresh decoder' (same pristine image), the canonical record (hyp, score, segments with scores, frame counts, alignment, lattice size).",
-    quick=dict(cases=16, maxlen=900, budget=80),
+    quick=dict(cases=50, maxlen=900, budget=80),
     thorough=dict(cases=2000, maxlen=900, budget=1500),
     rule=_DECODE_RULE + "History family: 1-4 history utterances then a target; decoders default | compallsen | cmn=batch. Two-decoder family: two utterances interleaved chunk by chunk. Non-trivial = history of >= 2 steps differing from the target in audio or grammar and a target hypothesis (history family), or a hypothesis on either decoder (two-decoder family); distinct = distinct case text.",
     assumptions=["the channel-normalisation state is the one deliberate carry-over and is reset with decoder_set_cmn"],
@@ -248,7 +248,7 @@ PROPS["C18"] = dict(
     technique="property-based testing with range/finiteness predicates over adversarial signal families; every frame handed to the scorer is inspected through --wrap=acmod_score; UBSan signed-overflow and implicit-truncation instrumentation on the scorer files",
     level_text="Adversarial signals (digital silence, DC at the rails, full-scale squares incl. Nyquist, impulses, 1-LSB and full-scale noise, speech x 0, clipped speech, silence/noise alternation, float32 at and beyond +-1.0) through (a) the front end alone over generated configurations and (b) the decoder (streaming and full_utt, both scorer modes, large-magnitude cmninit strings; thorough tier: 30 s - 3 min utterances of forced alignment): every cepstral value and every dynamic-feature value reaching the scorer is finite, every (active) senone score is within range with the best normalised to 0, segment scores are non-positive and sum to a path score in [WORST_SCORE, 0], and the exported channel-normalisation text is finite and a fixpoint of import/export.",
     level_note="Trusted: std::isfinite, the sanitizer instrumentation (signed-integer-overflow everywhere, implicit-signed-integer-truncation on ptm_mgau.c/s2_semi_mgau.c/ms_mgau.c/hmm.c). Front-end configurations are kept to those whose FFT resolves every mel filter (a coarser FFT is a separately keyed class).",
-    quick=dict(cases=250, maxlen=300, budget=100),
+    quick=dict(cases=900, maxlen=300, budget=100),
     thorough=dict(cases=4000, maxlen=300, budget=1800),
     rule=("choices decode to family {front end alone: sample rate, frame rate, window, FFT size, filterbank, transform, noise/DC removal, log-spectrum; "
           "decoder: scorer mode, beams, streaming|full_utt, cmninit} x adversarial signal family x length. Non-trivial = >= 3 front-end frames, or >= 10 frames "
